@@ -189,6 +189,114 @@ def hooks_reach(*a):
     return LAST[5] is None and any(e[0] == 'ttd' for e in LAST[6]) and W.ERR_TD in LAST[2]
 
 
+def declared(falsy, where, outer, k, inst=True):
+    """The layer a test declares is the one whose stack brackets it, whatever the layer object looks like: the real
+    find.tests_from_suite decides the layer name (test attribute / enclosing suite attribute), the real run_tests runs it.
+    falsy: the declared layer object is an instance whose len() is 0.  where: 0 on the test, 1 on the enclosing suite.
+    outer: an outer suite declares another layer (which must not win)."""
+    global LAST
+    from zope.testrunner import find as F
+    W.reset()
+    falsy, outer, inst = cb(falsy), cb(outer), cb(inst)
+    where = ci(where, 0, 1)
+    k = ci(k, 0, 14)
+    with untraced():
+        A = W.mk_layer('A', (), hooks='ST', instance=inst)
+        B = W.mk_layer('B', (A,), hooks='ST', instance=inst, falsy=falsy and inst)
+        X = W.mk_layer('X', (), hooks='ST', instance=inst)
+        info = {'A': ((), 'ST'), 'B': (('A',), 'ST')}
+        t = W.mk_test('t0', k)
+        inner = unittest.TestSuite([t])
+        if where == 0:
+            type(t).layer = B
+        else:
+            inner.layer = B
+        top = unittest.TestSuite([inner])
+        if outer:
+            top.layer = X
+    o = _options()
+    o.repeat = 1
+    o.post_mortem = False
+    F._layer_name_cache.clear()
+    found = list(F.tests_from_suite(top, o))
+    by = {}
+    for test, lname in found:
+        by.setdefault(lname, []).append(test)
+    name_from_layer(A)
+    for lname in sorted(by):
+        R.run_tests(o, unittest.TestSuite(by[lname]), lname, [], [], [], [])
+    with untraced():
+        trace = [e[:3] for e in W.TRACE if e[1] in ('tsu', 'ttd', 'start', 'stop', 'setUp', 'test', 'tearDown', 'cleanup')]
+        why = None
+        if sorted(by) != ['w.B']:
+            why = 'test declared for layer w.B was filed under %r' % (sorted(by),)
+        else:
+            why = check_brackets(trace, info, ['t0'], [k], 1, inst)
+    LAST = ('declared', falsy, where, outer, W.KIND_NAMES[k], why, tuple(e[1:] for e in trace), inst)
+    return why is None
+
+
+def declared_reach(*a):
+    declared(*a)
+    return LAST[5] is None and LAST[1] and any(e[0] == 'ttd' for e in LAST[6])
+
+
+C_VARIANTS = ['C alone', 'C(B(A))', 'C(A)', 'instance C(A)', 'C(B, A)']
+
+
+def _build_c(variant):
+    inst = variant == 3
+    A = W.mk_layer('A', (), hooks='ST', instance=inst)
+    if variant == 0:
+        C = W.mk_layer('C', (), hooks='ST')
+        return C, {'C': ((), 'ST')}, inst
+    if variant == 1:
+        B = W.mk_layer('B', (A,), hooks='ST')
+        C = W.mk_layer('C', (B,), hooks='ST')
+        return C, {'A': ((), 'ST'), 'B': (('A',), 'ST'), 'C': (('B',), 'ST')}, inst
+    if variant == 4:
+        B = W.mk_layer('B', (), hooks='ST')
+        C = W.mk_layer('C', (B, A), hooks='ST')
+        return C, {'A': ((), 'ST'), 'B': ((), 'ST'), 'C': (('B', 'A'), 'ST')}, inst
+    C = W.mk_layer('C', (A,), hooks='ST', instance=inst)
+    return C, {'A': ((), 'ST'), 'C': (('A',), 'ST')}, inst
+
+
+def twice(first, second, k, rep2):
+    """Two runs in one process in which the same layer name denotes different layer objects with different bases (layers
+    made by a factory, a re-imported module): the second run's tests are bracketed by the second run's stack."""
+    global LAST
+    from zope.testrunner import find as F
+    first, second = ci(first, 0, 4), ci(second, 0, 4)
+    k = ci(k, 0, 14)
+    repeat = 2 if rep2 else 1
+    why = None
+    for variant in (first, second):
+        W.reset()
+        F._layer_name_cache.clear()          # what Runner.run() does at the start of every run
+        with untraced():
+            layer, info, inst = _build_c(variant)
+            t = W.mk_test('t0', k)
+        o = _options()
+        o.repeat = repeat
+        o.post_mortem = False
+        lname = name_from_layer(layer)
+        R.run_tests(o, unittest.TestSuite([t]), lname, [], [], [], [])
+        with untraced():
+            trace = [e[:3] for e in W.TRACE if e[1] in ('tsu', 'ttd', 'start', 'stop', 'setUp', 'test', 'tearDown', 'cleanup')]
+            why = check_brackets(trace, info, ['t0'], [k], repeat, inst)
+        if why:
+            why = 'run with %s (after %s): %s' % (C_VARIANTS[variant], C_VARIANTS[first] if variant is second else 'nothing', why)
+            break
+    LAST = ('twice', C_VARIANTS[first], C_VARIANTS[second], W.KIND_NAMES[k], repeat, why)
+    return why is None
+
+
+def twice_reach(*a):
+    twice(*a)
+    return LAST[5] is None and LAST[1] != LAST[2]
+
+
 _P = [('shape', 'int'), ('h0', 'int'), ('h1', 'int'), ('n', 'int'), ('k0', 'int'), ('k1', 'int'), ('k2', 'int'),
       ('rep2', 'bool'), ('instance', 'bool'), ('pm', 'bool')]
 _C = ', '.join(n for n, _ in _P)
@@ -206,11 +314,11 @@ def _v(**kw):
 
 SPEC = {
     'property': 'C05',
-    'encoded': ['zope.testrunner.runner.run_tests', 'runner.TestResult.__init__', 'TestResult.testSetUp',
+    'encoded': ['zope.testrunner.find.tests_from_suite (declared(): which layer a test is filed under)', 'zope.testrunner.runner.run_tests', 'runner.TestResult.__init__', 'TestResult.testSetUp',
                 'TestResult.testTearDown', 'TestResult.startTest', 'TestResult.stopTest', 'TestResult.addSkip',
                 'TestResult.add*', 'runner.gather_layers', 'runner.order_by_bases', 'runner.layer_from_name',
                 'unittest.TestCase.run (interpreter stdlib, traced)'],
-    'files': ['src/zope/testrunner/runner.py'],
+    'files': ['src/zope/testrunner/runner.py', 'src/zope/testrunner/find.py'],
     'stubs': ['unittest.TestResult._exc_info_to_string -> constant (traceback text is not the subject)', 'runner.time -> constant clock', 'runner.gc -> no-op collector', 'options.output -> recorder (start_test/stop_test delimit brackets)'],
     'assumptions': ['a decorator-skipped test that never starts may see either no per-test hooks at all or a complete balanced pair'],
     'outside': ['more than 3 consecutive tests; layer graphs other than single / chain of 3 / diamond / diamond with an extra unrelated base',
@@ -227,5 +335,17 @@ SPEC = {
                                                   'thorough': _B + ' and n == 1 and shape == 1 and h0 == 0 and h1 == 0 and not instance and not rep2'},
          'timeout': {'quick': 240, 'thorough': 850},
          'fidelity': [_v(), _v(shape=2, k0=4, k1=7, h0=1), _v(shape=3, k0=1, k1=0), _v(pm=True, k0=0, k1=2, n=3, k2=0), _v(shape=0, n=3, k0=6, k1=4, k2=9, rep2=True, instance=True)]},
+        {'name': 'declared', 'fn': 'declared', 'params': [('falsy', 'bool'), ('where', 'int'), ('outer', 'bool'), ('k', 'int'), ('inst', 'bool')], 'call': 'falsy, where, outer, k, inst',
+         'bounds': {'quick': '0 <= where <= 1 and 0 <= k <= 14 and (k <= 4 or (falsy and where == 0)) and (inst or not falsy)', 'thorough': '0 <= where <= 1 and 0 <= k <= 14 and (inst or not falsy)'},
+         'slices': {'quick': ['where == 0', 'where == 1'], 'thorough': ['where == %d and %s' % (w_, f) for w_ in (0, 1) for f in ('falsy', 'not falsy')]},
+         'reach': 'declared_reach', 'reach_bounds': {'quick': 'falsy and where == 0 and not outer and k == 1 and inst', 'thorough': 'falsy and where == 0 and not outer and k == 1 and inst'},
+         'timeout': {'quick': 240, 'thorough': 850},
+         'fidelity': [dict(falsy=True, where=0, outer=True, k=1, inst=True), dict(falsy=False, where=1, outer=False, k=4, inst=False), dict(falsy=True, where=1, outer=True, k=6, inst=True)]},
+        {'name': 'twice', 'fn': 'twice', 'params': [('first', 'int'), ('second', 'int'), ('k', 'int'), ('rep2', 'bool')], 'call': 'first, second, k, rep2',
+         'bounds': {'quick': '0 <= first <= 4 and 0 <= second <= 4 and 0 <= k <= 14 and k <= 1 and not rep2', 'thorough': '0 <= first <= 4 and 0 <= second <= 4 and 0 <= k <= 14'},
+         'slices': {'quick': ['first == %d' % f for f in range(5)], 'thorough': ['first == %d and second == %d' % (f, g) for f in range(5) for g in range(5)]},
+         'reach': 'twice_reach', 'reach_bounds': {'quick': 'first == 1 and second == 2 and k == 0 and not rep2', 'thorough': 'first == 1 and second == 2 and k == 0 and not rep2'},
+         'timeout': {'quick': 240, 'thorough': 850},
+         'fidelity': [dict(first=1, second=2, k=1, rep2=False), dict(first=3, second=4, k=6, rep2=True), dict(first=0, second=0, k=0, rep2=False)]},
     ],
 }
